@@ -55,6 +55,15 @@ def _concrete_one(inp):
     kind = inp.get("kind", "non_ideal_non_isothermal_process")
     i = {"A": 0.05, "T0": 330.0, "m0": 3.0, "x0": 0.35, "dt": 0.2, "N": 4, "prec": 5e-5}
     i.update({k: v for k, v in inp.items() if v is not None and k in ("A", "T0", "m0", "x0", "dt", "Tp", "Pp", "basis", "n_curves", "initial_permeances", "mixture")})
+    if inp.get("program") and "non_isothermal" in str(kind):
+        # a gentle programme of the requested type through the initial temperature (the model's own coefficients rarely give admissible runs)
+        i.update(realrun.proc_fallback("vac", inp["program"])[0] and {k: v for k, v in realrun.proc_fallback("vac", inp["program"])[0].items() if k.startswith("tc")})
+        i["program"] = inp["program"]
+        if inp["program"] != "logarithmic":
+            i["tc0"] = i["T0"]
+        else:
+            import math
+            i["tc1"] = math.exp(i["T0"] / i["tc0"])
     i["kind"] = kind if kind in proc.KINDS else "non_ideal_non_isothermal_process"
     if not realrun.admissible_process(i):
         i.update({"A": 0.05, "T0": 330.0, "m0": 3.0, "x0": 0.35, "dt": 0.2})
@@ -182,6 +191,7 @@ def processes(job, kind, mode, tier):
     iso = "non_isothermal" not in kind
     from pyvaporation.permeance.permeance import Units
     from .C14 import factor
+    configs = []
     for n_curves in (1, 2):
         for init_perm in (False, True, Units.SI, Units.GPU):
             for basis in ("weight", "molar"):
@@ -189,11 +199,20 @@ def processes(job, kind, mode, tier):
                     continue
                 if tier == "quick" and init_perm in (Units.SI, Units.GPU) and (basis == "molar" or (n_curves == 1) != (init_perm == Units.SI)):
                     continue  # quick: SI with one curve, GPU with two curves, mass-fraction feed
+                configs.append((n_curves, init_perm, basis, None))
+    if not iso:
+        # the temperature list comes from a programme instead of the heat balance
+        configs += [(2, False, "weight", "polynomial")]
+        if tier != "quick":
+            configs += [(1, True, "weight", "polynomial"), (1, False, "molar", "exponential"), (2, True, "weight", "logarithmic")]
+    for n_curves, init_perm, basis, program in configs:
+        if True:
+            if True:
                 p0u = init_perm if init_perm in (Units.SI, Units.GPU) else None
-                ps = proc.ProcSetup(kind, mode, basis, None, N, n_curves=n_curves, initial_permeances=bool(init_perm), p0_units=p0u)
+                ps = proc.ProcSetup(kind, mode, basis, program, N, n_curves=n_curves, initial_permeances=bool(init_perm), p0_units=p0u)
                 dom = ps.domain()
                 inputs = dict(ps.inputs(), kind=kind, p0_units=p0u)
-                tag = "C05/%s/%s/c%d/ip%s/%s" % (proc.SHORT[kind], mode, n_curves, {False: "0", True: "1", Units.SI: "SI", Units.GPU: "GPU"}[init_perm], basis)
+                tag = "C05/%s/%s/c%d/ip%s/%s" % (proc.SHORT[kind], mode, n_curves, {False: "0", True: "1", Units.SI: "SI", Units.GPU: "GPU"}[init_perm], basis) + ("/" + program if program else "")
                 with Patches() as pt:
                     ps.install(pt, name_state=True)
                     got = 0
